@@ -583,6 +583,14 @@ def polars_full_join_keys_rule(program, res, rule="C16-S4"):
         how_name = unparse(next(kw.value for kw in c.keywords if kw.arg == "how"))
         keyed_by_how = any(how_name in unparse(st.value) or any(how_name in unparse(b.cond) and ("outer" in unparse(b.cond) or "full" in unparse(b.cond))
                                                                     for b, _l in g.lexical_guards(g.node_of(st))) for st in ex)
+        if not keyed_by_how:
+            # ... or a later statement, under a test of the join type, puts the equal-named keys back into the list that is coalesced
+            names = {st.targets[0].id for st in ex}
+            for st in ast.walk(plj.node):
+                if isinstance(st, ast.Assign) and isinstance(st.targets[0], ast.Name) and st.targets[0].id in names and g.has_node(st) and st not in ex:
+                    guards = [unparse(b.cond) for b, lab in g.lexical_guards(g.node_of(st)) if lab is True]
+                    if any(how_name in c_ and ("outer" in c_ or "full" in c_) for c_ in guards) and "zip(" in unparse(st.value) and "==" in unparse(st.value):
+                        keyed_by_how = True
         if keyed_by_how:
             res.ok(rule, "Polars: for a full join the equal-named keys are coalesced by the step itself")
         else:
